@@ -748,6 +748,73 @@ def run(ctx):
             metaEq.append(dict(rep, kind=f"{direction}[{variant}] == float64 run"))
             ctx.case(("D", direction, variant, shape, i, tuple(hexs(v_in))), nontrivial=True)
 
+    # ---- 4c. the raw functions with a Position object as first argument: an explicit ellipsoid always wins, else the object's
+    #          own, else GRS80.  All 7 x (7 + none) pairs (object's ellipsoid, explicit ellipsoid) in both directions in every run
+    from midgard.data import position as P_
+    from midgard.math import transformation as T_
+    for i_obj in range(len(ELLS)):
+        for j_arg in [None] + list(range(len(ELLS))):
+            for direction in ("trs2llh", "llh2trs"):
+                e_obj = E.get(ELLS[i_obj])
+                e_arg = None if j_arg is None else E.get(ELLS[j_arg])
+                i_exp = i_obj if j_arg is None else j_arg
+                shape = rng.choice(["1d", "1x3", "nx3"])
+                n = 1 if shape != "nx3" else rng.choice([2, 3])
+                flavour = rng.choice(["Position", "PosVel.pos"]) if direction == "trs2llh" else "Position"
+                if direction == "trs2llh":
+                    vals = np.array([gen_trs_point(rng, e_obj)[1] for _ in range(n)], dtype=float)
+                else:
+                    vals = np.array([gen_llh_point(rng)[1] for _ in range(n)], dtype=float)
+                a = vals[0].copy() if shape == "1d" else vals.copy()
+                try:
+                    if flavour == "PosVel.pos":
+                        pv = np.hstack([vals, np.full(vals.shape, 1000.0)])
+                        obj = P_.PosVel(pv[0] if shape == "1d" else pv, system="trs", ellipsoid=e_obj).pos
+                    else:
+                        obj = P_.Position(a, system=("trs" if direction == "trs2llh" else "llh"), ellipsoid=e_obj)
+                    clear_caches()
+                    f = T_.trs2llh if direction == "trs2llh" else T_.llh2trs
+                    with np.errstate(all="ignore"):
+                        res = f(obj) if e_arg is None else (f(obj, e_arg) if rng.random() < 0.5 else f(obj, ellipsoid=e_arg))
+                        out = np.array(np.asarray(res), dtype=float, copy=True)
+                except Exception as ex:
+                    structural.append(dict(kind="exception", direction=direction, api=f"function({flavour} object)",
+                                           ellipsoid=ELLS[i_obj], explicit=(None if j_arg is None else ELLS[j_arg]),
+                                           input=vals.tolist(), error=f"{type(ex).__name__}: {ex}"))
+                    continue
+                if out.shape != a.shape:
+                    structural.append(dict(kind="shape", direction=direction, api=f"function({flavour} object)", ellipsoid=ELLS[i_obj],
+                                           input=vals.tolist(), input_shape=list(a.shape), output_shape=list(out.shape)))
+                    continue
+                ctx.count(f"object_arg:{direction}:{'no ellipsoid' if j_arg is None else 'own' if j_arg == i_obj else 'other'}")
+                for v_in, v_out in zip(rows(vals), rows(out)):
+                    rep = dict(kind=f"{direction}(object, ellipsoid)", direction=direction, object=flavour, shape=shape,
+                               object_ellipsoid=ELLS[i_obj], explicit_ellipsoid=(None if j_arg is None else ELLS[j_arg]),
+                               expected_ellipsoid=ELLS[i_exp], input=fl(v_in), input_hex=hexs(v_in), output=fl(v_out),
+                               output_hex=hexs(v_out),
+                               how=f"transformation.{direction}({flavour}(values, ellipsoid={ELLS[i_obj]})"
+                                   + ("" if j_arg is None else f", ellipsoid.get({ELLS[j_arg]!r})") + "): an explicit ellipsoid wins, "
+                                   "else the object's own, else GRS80")
+                    if direction == "trs2llh":
+                        casesT.append(emit.pair(emit.nat(i_exp), dys(v_in), dys(v_out)))
+                        metaT.append(rep)
+                    else:
+                        casesL.append(emit.pair(emit.nat(i_exp), dys(v_in), dys(v_out)))
+                        metaL.append(rep)
+                    ctx.case(("A", direction, i_obj, j_arg, tuple(hexs(v_in))), nontrivial=(j_arg is not None and j_arg != i_obj))
+    # plain arrays / lists without an ellipsoid: GRS80
+    for direction in ("trs2llh", "llh2trs"):
+        for _k in range(3):
+            vals = np.array(gen_trs_point(rng, E.get("GRS80"))[1] if direction == "trs2llh" else gen_llh_point(rng)[1], dtype=float)
+            clear_caches()
+            f = T_.trs2llh if direction == "trs2llh" else T_.llh2trs
+            out = np.array(np.asarray(f(vals.copy() if _k else vals.tolist())), dtype=float, copy=True)
+            rep = dict(kind=f"{direction}(array, no ellipsoid)", direction=direction, input=fl(vals), input_hex=hexs(vals),
+                       output=fl(out), expected_ellipsoid="GRS80", how=f"transformation.{direction}(values) -> default GRS80")
+            (casesT if direction == "trs2llh" else casesL).append(emit.pair(emit.nat(ELLS.index("GRS80")), dys(vals), dys(out)))
+            (metaT if direction == "trs2llh" else metaL).append(rep)
+            ctx.case(("A0", direction, tuple(hexs(vals))), nontrivial=True)
+
     # ---- 5. objects: Position(xyz, 'trs', ellipsoid=E).llh.trs and random histories
     from midgard.data import position as P
     n_obj = 60 if ctx.quick() else 600
